@@ -26,7 +26,8 @@ theorem removeAll_length_lt {U : Tx → Prop} (hw : WF U) {mp : Pool} (hi : Inv 
   exact Nat.lt_of_le_of_lt (List.length_filter_le _ _) (length_filter_ne_lt mp.txs c hc)
 
 /-- Everything `Add` does on a pool that satisfies the invariant. -/
-theorem add_spec {U : Tx → Prop} (hw : WF U) {mp : Pool} (hi : Inv U mp) {t : Tx} (ht : U t) (feer : Feer) :
+theorem add_spec {U : Tx → Prop} (hw : WF U) {mp : Pool} (hi : Inv U mp) {t : Tx} (ht : U t) (feer : Feer)
+    (hF : FeerOk feer) :
     (∀ mp' e, add mp t feer = (mp', some e) → CacheOnly mp mp' t feer ∧ Inv U mp') ∧
     (∀ mp', add mp t feer = (mp', none) →
       Inv U mp' ∧ mp'.capacity = mp.capacity ∧ mp'.feePerByte = mp.feePerByte ∧ t ∈ mp'.txs ∧
@@ -62,7 +63,7 @@ theorem add_spec {U : Tx → Prop} (hw : WF U) {mp : Pool} (hi : Inv U mp) {t : 
         · intro mp' h; cases (Prod.mk.inj h).2
       | ok rm =>
         simp only
-        obtain ⟨actual, hmp1, hent, hcase, hrm1, hrmrel, hrmnd, hrm3, hrm4, hbal⟩ := checkTxConflicts_ok hw hi ht feer hck
+        obtain ⟨actual, hmp1, hent, hcase, hrm1, hrmrel, hrmnd, hrm3, hrm4, hbal⟩ := checkTxConflicts_ok hw hi ht feer hF hck
         have hi1 : Inv U mp1 := by rw [hmp1]; exact inv_fees_upd hi _ _ hent
         have hco : CacheOnly mp mp1 t feer := by
           rw [hmp1]
